@@ -451,8 +451,17 @@ func flushLog() {
 			case v := <-logQueue:
 				v.writer.Write(v.value)
 			case <-syncDone.Done():
-				asyncCancel()
-				return
+				// select picks at random among ready cases, so entries may still be
+				// queued here: write them out before acknowledging the flush
+				for {
+					select {
+					case v := <-logQueue:
+						v.writer.Write(v.value)
+					default:
+						asyncCancel()
+						return
+					}
+				}
 			}
 		}
 	}
